@@ -79,7 +79,7 @@ def c04(ctx, spec):
 def c06(ctx, spec):
     hist_run(ctx, [(1, 1, 0), (1, 2, 0), (1, 3, 0), (1, 4, 0), (0, 1, 0), (0, 2, 0), (2, 2, 0), (2, 3, 0), (3, 1, 0), (3, 2, 0)], T(ctx, 10000, 200000))
 def c08(ctx, spec):
-    hist_run(ctx, [(1, 1, 0), (1, 2, 0), (1, 3, 0), (1, 4, 0), (0, 1, 0), (0, 2, 0), (0, 3, 0), (2, 2, 0), (3, 2, 0)], T(ctx, 10000, 200000), zero_d=True)
+    hist_run(ctx, [(1, 1, 0), (1, 2, 0), (1, 3, 0), (1, 4, 0), (0, 1, 0), (0, 2, 0), (0, 3, 0), (2, 2, 0), (3, 2, 0), (4, 1, 0), (4, 2, 0)], T(ctx, 10000, 200000), zero_d=True)  # H_T=4: construction / destruction tracked, assignment trivial
     sa_run(ctx, [(1, 1), (1, 2), (2, 1), (1, 3)], T(ctx, 4000, 80000))
     # blocks go back to the allocator INSTANCE that issued them: the same histories over unequal instances of allocators with every propagation trait
     cfgs = [(1, 2, tr) for tr in (0, 1, 2, 4, 7)]
@@ -195,7 +195,7 @@ def c14(ctx, spec):
 
 # ---------------------------------------------------------------------------------------------- C17
 def c17(ctx, spec):
-    cfgs = [(0, 1), (0, 2), (0, 3), (0, 4), (1, 2), (2, 1), (2, 2), (3, 2)] + ([(1, 1), (1, 3), (2, 3), (3, 1), (3, 3)] if ctx.tier == 'thorough' else [])
+    cfgs = [(0, 1), (0, 2), (0, 3), (0, 4), (1, 2), (2, 1), (2, 2), (3, 2), (4, 2), (4, 3)] + ([(1, 1), (1, 3), (2, 3), (3, 1), (3, 3)] if ctx.tier == 'thorough' else [])
     ctx.build([dict(name='c17_t%d_d%d' % (t, d), src='harness/c17_serial.cpp', cfg='asan', defs=['C17_T=%d' % t, 'C17_D=%d' % d], libs=['-lboost_serialization']) for (t, d) in cfgs])
     n = T(ctx, 1500, 60000)
     for (t, d) in cfgs: ctx.run_sharded('c17_t%d_d%d' % (t, d), n, args=['--maxext', 4 if d < 4 else 3], shards=2)
@@ -286,7 +286,7 @@ REGISTRY = {
                      'A PMPI interposer keeps a ledger of MPI_Type_create_hvector/resized/vector/dup/contiguous/commit/free and of the datatypes used by Pack/Unpack/Sendrecv: used while uncommitted or dead, freed twice, or never freed are violations. distinct = hash(view program, destination kind, transfer kind); non-trivial = >= 2 elements',
                 assumptions=['one process: Sendrecv to self over MPI_COMM_SELF exercises the same datatype engine as a remote transfer', 'Open MPI internals are uninstrumented (memcheck pass in thorough)']),
     'C17': dict(fn=c17, level='exploration',
-                rule='Boost.Serialization 1.83 text/binary/XML archives; element types int, double, std::string (with spaces and XML metacharacters), nested multi::array<int,1>; ranks 1..4; extents 0..4 incl. all-zero and single-zero; first indices 0, -2..2 and (one re-based case in five) around +-2^31, 3e9, -5e9; '
+                rule='Boost.Serialization 1.83 text/binary/XML archives; element types int, double, std::string (with spaces and XML metacharacters), nested multi::array<int,1>; ranks 1..4; extents 0..4 incl. all-zero and single-zero; first indices 0, -2..2 and (one re-based case in five) around +-2^31, 3e9, -5e9; a fifth element type is a class with object tracking switched on (BOOST_CLASS_TRACKING track_always); '
                      'whole-array round trip into a loading array in prior state {empty, same extents, other extents, larger, moved-from, same count but other extents}: extents, elements, ==, and re-saving gives the identical archive (XML archives of ints are parsed independently: exactly num_elements items in canonical order); '
                      'view round trip: a view {whole, rotated, sub-block, strided, transposed} is saved and loaded into the same kind of view over another root: k-th element to k-th element, everything outside the loaded view untouched; the same archive is also loaded into a contiguous view of equal extents, and the archive of a contiguous view into the laid-out view (the archive of a view must not depend on its memory layout). distinct = hash(archive kind, prior state / view kind, emptiness); non-trivial = >= 2 elements',
                 assumptions=['0-D arrays are not serialised here (reduced interface)']),
@@ -297,7 +297,7 @@ REGISTRY = {
                 assumptions=['guard canaries + poisoned padding stand in for ASan inside LAPACK (memcheck in thorough)', 'gesvd convention: the 4th output holds V^T (A = U diag(s) VT)', 'syev.hpp does not compile at the pinned commit: reported as a finding, not exercised']),
     'C15': dict(fn=c15, level='exploration',
                 rule='random cases: D 1..4, extents 1..6 (non powers of two, size-1 dimensions forced sometimes), all 2^D masks, both signs, input and output layouts independently from {contiguous, rotated root, unrotated root, transposed root, padded block, strided-of-doubled} over guarded roots (64 canaries, poisoned padding); '
-                     'modes: out-of-place dft, in-place overload, forward followed by backward, a plan executed on other arrays of the same layouts, and (D >= 2) an owning array constructed from / assigned the lazy range fft::dft(which, in, dir) / dft_forward / dft_backward of adaptors/fft.hpp (extents of the input, elements of the direct DFT, input untouched). Oracle: direct O(N^2) DFT along exactly the masked dimensions (batches over the rest) with tolerance 1e-10*N*max|in|; distinct input bit-identical afterwards; every root element outside the output view untouched; forward∘backward == N_transformed * input. '
+                     'every 40th case (D = 2) is a huge-stride probe over a lazily committed 64 GiB mapping (rows 2^31 + 8k complex elements apart: as input, as output, in place; skipped and counted if the mapping is refused); modes: out-of-place dft, in-place overload, forward followed by backward, a plan executed on other arrays of the same layouts, and (D >= 2) an owning array constructed from / assigned the lazy range fft::dft(which, in, dir) / dft_forward / dft_backward of adaptors/fft.hpp (extents of the input, elements of the direct DFT, input untouched). Oracle: direct O(N^2) DFT along exactly the masked dimensions (batches over the rest) with tolerance 1e-10*N*max|in|; distinct input bit-identical afterwards; every root element outside the output view untouched; forward∘backward == N_transformed * input. '
                      'thorough adds a valgrind memcheck pass (reads/writes inside FFTW). distinct = hash(mask, layout pair, mode, sign, size classes); non-trivial = more than one element and more than one transformed point',
                 assumptions=['FFTW itself is trusted as a black box only through its observable reads/writes: ASan cannot see inside it (canaries/poison in quick, memcheck in thorough)']),
     'C13': dict(fn=c13, level='exploration', exhaustive=True,
